@@ -183,8 +183,8 @@ def rdirs(rng, tree, other):
 def gen_hist(rng, free=False):
     """free=False: only histories inside the modelled family (see Model/SparseCheckout.v header):
     once a sparse operation has been issued every later operation targets the same commit; a non-forced
-    sparse operation is issued only first or when all earlier operations targeted the same commit; plain
-    writes go to never-tracked names.  free=True: anything (oracle-only suite)."""
+    sparse operation is issued only first or when all earlier operations targeted that same commit (also after
+    a failed sparse operation); plain writes go to never-tracked names.  free=True: anything (oracle-only suite)."""
     a = gen_tree(rng)
     b = mutate_tree(rng, a)
     untracked = {}
@@ -214,7 +214,7 @@ def gen_hist(rng, free=False):
             ops.append({"op": "modify" if kind == "m" else "write", "name": H(nm), "content": H(b"WWW" + b"w" * wcount + nm)})
             continue
         dirs = rdirs(rng, t, o)
-        if dirs and kind in ("co", "rm") and not free and sparse_to is None and not (nrepo == 0 or targets == {to}):
+        if dirs and kind in ("co", "rm") and not free and not (nrepo == 0 or targets == {to}):
             kind = "cof" if kind == "co" else "rh"
         if dirs and sparse_to is None:
             sparse_to = to
@@ -321,6 +321,8 @@ class Hist(Suite):
                     if skip != (not selected(D, name)):
                         return ("op %d dirs %r: entry %r has skip=%s" % (k, D, name, skip), None)
                     if skip and name in wt:
+                        if merge and name not in {x[0] for x in pre_idx}:
+                            continue      # an untracked file was already there: a non-forced checkout must leave it (git does too)
                         return ("op %d dirs %r: skip-worktree entry %r is present in the worktree" % (k, D, name), cls if merge else None)
                     if not skip and wt.get(name) != data:
                         return ("op %d dirs %r: selected entry %r not materialised (worktree has %r)" % (k, D, name, wt.get(name)),
